@@ -553,8 +553,18 @@ func genEPUB(c *fw.Ctx, idx int, o genOpts) ([]byte, *pkgModel) {
 		book.NavPath = opfDir + []string{"nav.xhtml", "toc/nav.xhtml"}[r.Intn(2)]
 		f.add("nav-document")
 	}
-	for _, t := range navLabels {
-		m.Foreign[t] = "navigation label (NCX / nav document outside the spine)"
+	if ver == 3 && r.Intn(4) == 0 {
+		// the navigation document is itself a spine item: a declared part whose
+		// text (the labels) a rendering may show or suppress as navigation
+		pos := r.Intn(n + 1)
+		book.NavInSpine = pos
+		np := part{Path: book.NavPath, Opt: append([]string{}, navLabels...)}
+		m.Parts = append(m.Parts[:pos], append([]part{np}, m.Parts[pos:]...)...)
+		f.add("nav-document-in-spine")
+	} else {
+		for _, t := range navLabels {
+			m.Foreign[t] = "navigation label (NCX / nav document outside the spine)"
+		}
 	}
 	members := book.Members(c.Rand("pkg", idx, "render"))
 	okZip := false
